@@ -32,6 +32,9 @@ type Iface struct {
 	V   Val
 }
 type Tuple []Val
+type Arr struct{ Base, N int } // address of a small local array: cells Base .. Base+N-1
+type Lit []Val                 // a slice of a small local array, as it was when it was sliced
+type ElemRef struct{ V Val }   // address of an element of a Lit (read-only)
 type Sym struct{ Name string } // a named opaque input (a float64 parameter, a *big.Float, ...)
 
 var TopV = Top{}
@@ -65,6 +68,14 @@ func Str(v Val) string {
 			s = append(s, Str(x))
 		}
 		return "(" + strings.Join(s, ",") + ")"
+	case Lit:
+		var s []string
+		for _, x := range v {
+			s = append(s, Str(x))
+		}
+		return "[" + strings.Join(s, ",") + "]"
+	case Arr:
+		return fmt.Sprintf("arr%d", v.Base)
 	}
 	return fmt.Sprintf("%v", v)
 }
@@ -94,6 +105,7 @@ type Event struct {
 	Recv [8]Val // snapshot of the first Decimal argument's fields at call time
 	Has  bool   // Recv valid
 	Ret  Val    // value a model returned (for modelled calls)
+	NDec int    // number of decisions the path had taken when the call was made
 }
 
 func (e Event) String() string {
@@ -108,6 +120,14 @@ func (e Event) String() string {
 	return s
 }
 
+// Decision is one fork of a path: the comparison X Op Y was not known and the path took the edge
+// on which it is Taken.
+type Decision struct {
+	Op    token.Token
+	X, Y  Val
+	Taken bool
+}
+
 // State is the abstract heap plus the path's history.
 type State struct {
 	Heap    map[int]*[8]Val
@@ -115,6 +135,7 @@ type State struct {
 	Cells   map[int]Val
 	Trace   []Event
 	Forks   []string
+	Decs    []Decision // the comparisons this path forked on, with the abstract operands
 	Counter map[string]int
 	Imprec  []string // reasons this path is not trustworthy
 	ids     *int
@@ -142,6 +163,7 @@ func (s *State) Clone() *State {
 	}
 	n.Trace = append([]Event(nil), s.Trace...)
 	n.Forks = append([]string(nil), s.Forks...)
+	n.Decs = append([]Decision(nil), s.Decs...)
 	n.Imprec = append([]string(nil), s.Imprec...)
 	return n
 }
@@ -186,9 +208,15 @@ type Interp struct {
 	Traced  map[string]bool // construct names whose calls are recorded even when inlined
 	Models  map[string]ModelFunc
 	BinHook func(op token.Token, x, y Val) (Val, bool)
-	Budget  int
-	Steps   int
-	MaxDep  int
+	// StHook is asked before BinHook, with the path's state (its decisions so far): a comparison the
+	// path has already decided need not fork again
+	StHook func(st *State, op token.Token, x, y Val) (Val, bool)
+	// GlobalSyms: a load of a package-level variable yields the named unknown "global:<pkg>.<name>"
+	GlobalSyms bool
+	Budget     int
+	LoopBound  int // visits of one block along a path before the path is given up (default 4)
+	Steps      int
+	MaxDep     int
 }
 
 func New(m *model.Model) *Interp {
@@ -265,7 +293,11 @@ func (it *Interp) exec(fr *frame, b *ssa.BasicBlock, start int, pred *ssa.BasicB
 	}
 	if start == 0 {
 		visits[b.Index]++
-		if visits[b.Index] > 4 {
+		lb := it.LoopBound
+		if lb == 0 {
+			lb = 4
+		}
+		if visits[b.Index] > lb {
 			return []Outcome{{Kind: "diverge", St: st}}
 		}
 	}
@@ -290,6 +322,13 @@ func (it *Interp) exec(fr *frame, b *ssa.BasicBlock, start int, pred *ssa.BasicB
 					st.Set(o, f, it.zeroOfField(f))
 				}
 				fr.env[ins] = o
+			} else if at, ok := et.Underlying().(*types.Array); ok && at.Len() >= 1 && at.Len() <= 128 {
+				base := *st.ids + 1
+				for i := int64(0); i < at.Len(); i++ {
+					*st.ids++
+					st.Cells[*st.ids] = it.zeroOf(at.Elem())
+				}
+				fr.env[ins] = Arr{Base: base, N: int(at.Len())}
 			} else {
 				*st.ids++
 				st.Cells[*st.ids] = it.zeroOf(et)
@@ -316,8 +355,29 @@ func (it *Interp) exec(fr *frame, b *ssa.BasicBlock, start int, pred *ssa.BasicB
 						v = TopV
 					}
 					fr.env[ins] = v
+				case ElemRef:
+					fr.env[ins] = a.V
+				case Arr:
+					// the value of a small local array (copied as a whole: x := [...]T{…})
+					l := make(Lit, a.N)
+					for i := range l {
+						l[i] = st.Cells[a.Base+i]
+					}
+					fr.env[ins] = l
+				case Sym:
+					// *(&name[k]): the k-th element of an opaque sequence
+					if strings.HasPrefix(a.Name, "&") {
+						fr.env[ins] = Sym{a.Name[1:]}
+					} else {
+						fr.env[ins] = TopV
+					}
 				default:
 					fr.env[ins] = TopV
+					if g, ok := ins.X.(*ssa.Global); ok && it.GlobalSyms && g.Pkg != nil {
+						// the value of a package-level variable as a named unknown (error sentinels)
+						fr.env[ins] = Sym{"global:" + g.Pkg.Pkg.Path() + "." + g.Name()}
+						continue
+					}
 					// an entry of a package-level constant table at constant indexes
 					// (mulForms[x.form][y.form])
 					if v, ok := it.tableEntry(fr, ins); ok {
@@ -335,12 +395,23 @@ func (it *Interp) exec(fr *frame, b *ssa.BasicBlock, start int, pred *ssa.BasicB
 					fr.env[ins] = wrap(constant.UnaryOp(token.SUB, c.V, 0), ins.Type())
 				} else {
 					fr.env[ins] = TopV
+					if it.BinHook != nil {
+						if v, ok := it.BinHook(token.SUB, Int(0), x); ok {
+							fr.env[ins] = v
+						}
+					}
 				}
 			default:
 				fr.env[ins] = TopV
 			}
 		case *ssa.BinOp:
 			x, y := it.val(fr, ins.X), it.val(fr, ins.Y)
+			if it.StHook != nil {
+				if v, ok := it.StHook(st, ins.Op, x, y); ok {
+					fr.env[ins] = v
+					continue
+				}
+			}
 			if it.BinHook != nil {
 				if v, ok := it.BinHook(ins.Op, x, y); ok {
 					fr.env[ins] = v
@@ -354,6 +425,16 @@ func (it *Interp) exec(fr *frame, b *ssa.BasicBlock, start int, pred *ssa.BasicB
 				st.Set(Obj{a.Obj}, a.F, it.val(fr, ins.Val))
 			case Cell:
 				st.Cells[a.ID] = it.val(fr, ins.Val)
+			case Arr:
+				if l, ok := it.val(fr, ins.Val).(Lit); ok && len(l) == a.N {
+					for i := range l {
+						st.Cells[a.Base+i] = l[i]
+					}
+				} else {
+					for i := 0; i < a.N; i++ {
+						st.Cells[a.Base+i] = TopV
+					}
+				}
 			case Obj:
 				// *z = Decimal{}: whole-object store of the zero value
 				if c, ok := ins.Val.(*ssa.Const); ok && c.Value == nil {
@@ -373,6 +454,131 @@ func (it *Interp) exec(fr *frame, b *ssa.BasicBlock, start int, pred *ssa.BasicB
 					st.Imprec = append(st.Imprec, "store through an unknown *Decimal at "+it.M.InstrPos(ins))
 				}
 			}
+		case *ssa.IndexAddr:
+			fr.env[ins] = TopV
+			switch a := it.val(fr, ins.X).(type) {
+			case Sym:
+				if k, ok := ConstInt(it.val(fr, ins.Index)); ok {
+					fr.env[ins] = Sym{fmt.Sprintf("&%s[%d]", a.Name, k)}
+				} else if ix, ok := it.val(fr, ins.Index).(Sym); ok {
+					fr.env[ins] = Sym{fmt.Sprintf("&%s[%s]", a.Name, ix.Name)}
+				}
+			case Arr:
+				if k, ok := ConstInt(it.val(fr, ins.Index)); ok && k >= 0 && int(k) < a.N {
+					fr.env[ins] = Cell{a.Base + int(k)}
+				}
+			case Lit:
+				if k, ok := ConstInt(it.val(fr, ins.Index)); ok && k >= 0 && int(k) < len(a) {
+					fr.env[ins] = ElemRef{a[k]}
+				}
+			}
+		case *ssa.Slice:
+			fr.env[ins] = TopV
+			switch a := it.val(fr, ins.X).(type) {
+			case Sym:
+				if ins.Max != nil {
+					break
+				}
+				bound := func(v ssa.Value) (string, bool) {
+					if v == nil {
+						return "", true
+					}
+					x := it.val(fr, v)
+					if k, ok := ConstInt(x); ok {
+						return fmt.Sprint(k), true
+					}
+					if sy, ok := x.(Sym); ok {
+						return sy.Name, true
+					}
+					return "", false
+				}
+				lo, ok1 := bound(ins.Low)
+				hi, ok2 := bound(ins.High)
+				switch {
+				case !ok1 || !ok2:
+				case lo == "" && hi == "":
+					fr.env[ins] = a
+				default:
+					fr.env[ins] = Sym{fmt.Sprintf("%s[%s:%s]", a.Name, lo, hi)}
+				}
+			case Arr:
+				lo, hi := int64(0), int64(a.N)
+				okB := ins.Max == nil
+				if ins.Low != nil {
+					if k, ok := ConstInt(it.val(fr, ins.Low)); ok {
+						lo = k
+					} else {
+						okB = false
+					}
+				}
+				if ins.High != nil {
+					if k, ok := ConstInt(it.val(fr, ins.High)); ok {
+						hi = k
+					} else {
+						okB = false
+					}
+				}
+				if okB && 0 <= lo && lo <= hi && hi <= int64(a.N) {
+					l := make(Lit, hi-lo)
+					for i := range l {
+						l[i] = st.Cells[a.Base+int(lo)+i]
+					}
+					fr.env[ins] = l
+				}
+			case Lit, Const:
+				// a slice whose elements are known (or the nil slice), cut at constant bounds
+				var l Lit
+				if c, isC := a.(Const); isC {
+					if c.V != nil && c.V.Kind() == constant.String && ins.Max == nil {
+						// a constant string cut at constant bounds
+						sv := constant.StringVal(c.V)
+						lo, hi := int64(0), int64(len(sv))
+						okB := true
+						if ins.Low != nil {
+							if k, ok := ConstInt(it.val(fr, ins.Low)); ok {
+								lo = k
+							} else {
+								okB = false
+							}
+						}
+						if ins.High != nil {
+							if k, ok := ConstInt(it.val(fr, ins.High)); ok {
+								hi = k
+							} else {
+								okB = false
+							}
+						}
+						if okB && 0 <= lo && lo <= hi && hi <= int64(len(sv)) {
+							fr.env[ins] = Const{constant.MakeString(sv[lo:hi])}
+						}
+						break
+					}
+					if c.V != nil {
+						break
+					}
+				} else {
+					l = a.(Lit)
+				}
+				lo, hi := int64(0), int64(len(l))
+				okB := ins.Max == nil
+				if ins.Low != nil {
+					if k, ok := ConstInt(it.val(fr, ins.Low)); ok {
+						lo = k
+					} else {
+						okB = false
+					}
+				}
+				if ins.High != nil {
+					if k, ok := ConstInt(it.val(fr, ins.High)); ok {
+						hi = k
+					} else {
+						okB = false
+					}
+				}
+				if okB && 0 <= lo && lo <= hi && hi <= int64(len(l)) {
+					fr.env[ins] = append(Lit{}, l[lo:hi]...)
+				}
+			}
 		case *ssa.ChangeType:
 			fr.env[ins] = it.val(fr, ins.X)
 		case *ssa.Convert:
@@ -381,8 +587,26 @@ func (it *Interp) exec(fr *frame, b *ssa.BasicBlock, start int, pred *ssa.BasicB
 				fr.env[ins] = wrap(c.V, ins.Type())
 			} else if _, ok := x.(Sym); ok {
 				fr.env[ins] = x
+			} else if c, ok := x.(Const); ok && c.V != nil && c.V.Kind() == constant.String && isByteSlice(ins.Type()) {
+				// []byte("…") of a constant string
+				sv := constant.StringVal(c.V)
+				l := make(Lit, len(sv))
+				for i := 0; i < len(sv); i++ {
+					l[i] = Int(int64(sv[i]))
+				}
+				fr.env[ins] = l
 			} else {
 				fr.env[ins] = TopV
+			}
+		case *ssa.Lookup:
+			// s[i] of a constant string at a constant index
+			fr.env[ins] = TopV
+			if c, ok := it.val(fr, ins.X).(Const); ok && c.V != nil && c.V.Kind() == constant.String {
+				if k, ok := ConstInt(it.val(fr, ins.Index)); ok {
+					if sv := constant.StringVal(c.V); k >= 0 && int(k) < len(sv) {
+						fr.env[ins] = Int(int64(sv[k]))
+					}
+				}
 			}
 		case *ssa.MakeInterface:
 			fr.env[ins] = Iface{Dyn: ins.X.Type().String(), V: it.val(fr, ins.X)}
@@ -411,6 +635,11 @@ func (it *Interp) exec(fr *frame, b *ssa.BasicBlock, start int, pred *ssa.BasicB
 			for si, s := range b.Succs {
 				nfr, nst := fr.clone(), st.Clone()
 				nst.Forks = append(nst.Forks, fmt.Sprintf("%s:%s=%v", it.M.FuncName(fr.fn), condStr(ins.Cond), si == 0))
+				if bo, ok := ins.Cond.(*ssa.BinOp); ok {
+					nst.Decs = append(nst.Decs, Decision{Op: bo.Op, X: it.val(fr, bo.X), Y: it.val(fr, bo.Y), Taken: si == 0})
+				} else {
+					nst.Decs = append(nst.Decs, Decision{Op: token.ILLEGAL, X: it.val(fr, ins.Cond), Taken: si == 0})
+				}
 				it.refine(nfr, nst, ins.Cond, si == 0)
 				res = append(res, it.exec(nfr, s, 0, b, nst, depth, cloneVisits(visits))...)
 			}
@@ -522,7 +751,7 @@ func (it *Interp) zeroOf(t types.Type) Val {
 }
 
 func (it *Interp) call(fr *frame, b *ssa.BasicBlock, idx int, pred *ssa.BasicBlock, ins *ssa.Call, st *State, depth int, visits map[int]int) []Outcome {
-	cal := ins.Call.StaticCallee()
+	cal := model.Unthunk(ins.Call.StaticCallee())
 	var args []Val
 	for _, a := range ins.Call.Args {
 		args = append(args, it.val(fr, a))
@@ -534,13 +763,21 @@ func (it *Interp) call(fr *frame, b *ssa.BasicBlock, idx int, pred *ssa.BasicBlo
 	name := "<dynamic>"
 	if cal != nil {
 		name = it.canonName(cal)
+		// the core of a function the table knows by name goes by that name
+		if p := it.M.CoreOf(cal); p != "" {
+			_, own := it.Models[name]
+			_, viaCore := it.Models[p]
+			if !own && !it.Traced[name] && !it.Opaque[name] && (viaCore || it.Traced[p] || it.Opaque[p]) {
+				name = p
+			}
+		}
 	} else if bn := model.BuiltinName(&ins.Call); bn != "" {
 		name = "builtin." + bn
 	} else if ins.Call.IsInvoke() {
 		name = "invoke." + ins.Call.Method.Name()
 		args = append([]Val{it.val(fr, ins.Call.Value)}, args...)
 	}
-	snap := Event{Fn: name, Args: args}
+	snap := Event{Fn: name, Args: args, NDec: len(st.Decs)}
 	for _, a := range args {
 		if o, ok := a.(Obj); ok {
 			snap.Recv = *st.Heap[o.ID]
@@ -548,8 +785,27 @@ func (it *Interp) call(fr *frame, b *ssa.BasicBlock, idx int, pred *ssa.BasicBlo
 			break
 		}
 	}
-	// 1. models
-	if mf, ok := it.Models[name]; ok {
+	if l, ok := firstLit(args); ok && name == "builtin.len" {
+		return resume(fr, st, Int(int64(len(l))), visits)
+	}
+	if name == "builtin.len" && len(args) == 1 {
+		if c, ok := args[0].(Const); ok && c.V != nil && c.V.Kind() == constant.String {
+			return resume(fr, st, Int(int64(len(constant.StringVal(c.V)))), visits)
+		}
+		if c, ok := args[0].(Const); ok && c.V == nil {
+			if _, isSlice := ins.Call.Args[0].Type().Underlying().(*types.Slice); isSlice {
+				return resume(fr, st, Int(0), visits) // len of the nil slice
+			}
+		}
+	}
+	// 1. models (the core of a modelled function is modelled as that function)
+	mf, ok := it.Models[name]
+	if !ok && cal != nil {
+		if p := it.M.CoreOf(cal); p != "" {
+			mf, ok = it.Models[p]
+		}
+	}
+	if ok {
 		if vals, handled := mf(it, st, name, args); handled {
 			var res []Outcome
 			for i, v := range vals {
@@ -564,6 +820,20 @@ func (it *Interp) call(fr *frame, b *ssa.BasicBlock, idx int, pred *ssa.BasicBlo
 				res = append(res, resume(nfr, nst, v, nv)...)
 			}
 			return res
+		}
+	}
+	// append of known elements to a slice whose elements are known
+	if name == "builtin.append" && len(args) == 2 && !it.Traced[name] {
+		var base Lit
+		okA := false
+		switch a := args[0].(type) {
+		case Lit:
+			base, okA = a, true
+		case Const:
+			okA = a.V == nil
+		}
+		if more, ok := args[1].(Lit); ok && okA {
+			return resume(fr, st, append(append(Lit{}, base...), more...), visits)
 		}
 	}
 	inl := cal != nil && len(cal.Blocks) > 0 && !it.Opaque[name] && (it.M.InDecimalPkg(cal) || it.M.InContextPkg(cal)) &&
@@ -656,6 +926,14 @@ func (it *Interp) call(fr *frame, b *ssa.BasicBlock, idx int, pred *ssa.BasicBlo
 		res = append(res, resume(nfr, s, ret, nv)...)
 	}
 	return res
+}
+
+func firstLit(args []Val) (Lit, bool) {
+	if len(args) == 1 {
+		l, ok := args[0].(Lit)
+		return l, ok
+	}
+	return nil, false
 }
 
 func hasObj(args []Val) bool {
@@ -891,6 +1169,12 @@ func (it *Interp) tableEntry(fr *frame, ld *ssa.UnOp) (Val, bool) {
 	var idx []int64
 	addr := ld.X
 	for {
+		if fa, ok := addr.(*ssa.FieldAddr); ok {
+			// a field of a table entry that is a struct
+			idx = append([]int64{int64(fa.Field)}, idx...)
+			addr = fa.X
+			continue
+		}
 		ia, ok := addr.(*ssa.IndexAddr)
 		if !ok {
 			break
@@ -914,4 +1198,13 @@ func (it *Interp) tableEntry(fr *frame, ld *ssa.UnOp) (Val, bool) {
 		return wrap(v, ld.Type()), true
 	}
 	return Const{v}, true
+}
+
+func isByteSlice(t types.Type) bool {
+	sl, ok := t.Underlying().(*types.Slice)
+	if !ok {
+		return false
+	}
+	b, ok := sl.Elem().Underlying().(*types.Basic)
+	return ok && (b.Kind() == types.Uint8 || b.Kind() == types.Byte)
 }
